@@ -376,6 +376,12 @@ def hintProcessing (pool : List WP) (hint : Option Nat) (key : Nat) : Bool :=
   | some h => match getW pool h with | some p => p.isProcessingKey key | none => false
   | none => false
 
+/-- sticky (F11, fixed): the hinted worker has the key in flight or still queued -/
+def hintPending (pool : List WP) (hint : Option Nat) (key : Nat) : Bool :=
+  match hint with
+  | some h => match getW pool h with | some p => p.hasPendingKey key | none => false
+  | none => false
+
 def hintAvailable (pool : List WP) (hint : Option Nat) : Bool :=
   match hint with
   | some h => match getW pool h with | some p => p.isAvailable | none => false
@@ -419,9 +425,9 @@ def W.chooseTargetWorker (w : W) (j : Job) (hint : Option Nat) : Option Nat × W
       let (r, avail, inQ) := popAvail w.pool w.avail w.inQ
       (r, { w with avail := avail, inQ := inQ })
   | .sq =>
-    if hintProcessing w.pool hint j.key then (hint, w)
+    if hintPending w.pool hint j.key then (hint, w)
     else
-      match w.pool.find? (·.isProcessingKey j.key) with
+      match w.pool.find? (·.hasPendingKey j.key) with
       | some p => (some p.wid, w)
       | none =>
         if hintAvailable w.pool hint then (hint, w)
